@@ -54,6 +54,7 @@ type Program struct {
 	Renames []string
 
 	inserters map[*ssa.Function]bool // tableInserters cache
+	oidw      *oidWorld              // order-id facts cache
 
 	byPath map[string]*packages.Package
 	cgVTA  *callgraph.Graph
